@@ -299,3 +299,20 @@ def run(ctx):
     ctx.note("R20.4 evaluated %d (array, old, new) cases" % ncase)
     for k in range(0, ncase, max(1, ncase // 12)):
         ctx.ok("R20.4", "sort_replace:cases-%d.." % k, sr.loc(), nontrivial=True)
+
+
+_run_base = run
+
+
+def run(ctx):
+    _run_base(ctx)
+    prog = ctx.prog
+    ctx.rule("R20.5", "the value reaches the sort module in time and its outputs take every write: when the running "
+             "thread of a CPU changes, the bay's first-in first-out schedule over the breakdown wiring (taken from "
+             "connect_cpu) with the model's channel order (taken from its enum) lets mux0 produce tr before mux1 "
+             "reads it and tri is final when the sort module reads it, for all 324 (old, new) combinations of "
+             "subsystem, task type and idle values; with the properties sort_init sets, an output written X, Y, X in "
+             "one propagation ends at X through chan.c's own chan_set")
+    from rules import round3
+    round3.check_breakdown_schedule(ctx, "R20.5")
+    round3.check_sort_outputs_rewritable(ctx, "R20.5")
